@@ -190,9 +190,13 @@ int reb_particle_check_testparticles(struct reb_simulation* const r){
 
 int reb_get_rootbox_for_particle(const struct reb_simulation* const r, struct reb_particle pt){
 	if (r->root_size==-1) return 0;
-	int i = ((int)floor((pt.x + r->boxsize.x/2.)/r->root_size)+r->N_root_x)%r->N_root_x;
-	int j = ((int)floor((pt.y + r->boxsize.y/2.)/r->root_size)+r->N_root_y)%r->N_root_y;
-	int k = ((int)floor((pt.z + r->boxsize.z/2.)/r->root_size)+r->N_root_z)%r->N_root_z;
+	int i = (int)floor((pt.x + r->boxsize.x/2.)/r->root_size);
+	int j = (int)floor((pt.y + r->boxsize.y/2.)/r->root_size);
+	int k = (int)floor((pt.z + r->boxsize.z/2.)/r->root_size);
+	// A particle on the upper face of the box belongs to the last root box.
+	i = i<0 ? 0 : (i>=r->N_root_x ? r->N_root_x-1 : i);
+	j = j<0 ? 0 : (j>=r->N_root_y ? r->N_root_y-1 : j);
+	k = k<0 ? 0 : (k>=r->N_root_z ? r->N_root_z-1 : k);
 	int index = (k*r->N_root_y+j)*r->N_root_x+i;
 	return index;
 }
